@@ -106,6 +106,9 @@ enum Op {
     Layer,
     Merge(usize),
     Rpc(usize),
+    /// keep a clone of the table as it is now; the program goes on extending the original, and
+    /// at the end the clone must still route exactly as it did when it was taken
+    Fork,
 }
 
 fn op_json(o: &Op) -> Value {
@@ -113,6 +116,7 @@ fn op_json(o: &Op) -> Value {
         Op::Route(p) => json!(["route", PATTERNS[*p]]),
         Op::Layer => json!(["route_layer", 0]),
         Op::Merge(s) => json!(["merge", s]),
+        Op::Fork => json!(["clone_kept_aside", 0]),
         Op::Rpc(n) => {
             let name = ["Greeter.Admin", "Greeter", "b"][*n];
             json!(["add_rpc_service", name])
@@ -140,6 +144,7 @@ fn alphabet() -> Vec<Op> {
     for n in 0..3 {
         v.push(Op::Rpc(n));
     }
+    v.push(Op::Fork);
     v
 }
 
@@ -151,6 +156,7 @@ struct Builder {
     next_tag: u32,
     calls: Calls,
     layer_runs: Arc<AtomicU64>,
+    forks: Vec<(Router, RefTable)>,
 }
 
 impl Builder {
@@ -172,6 +178,9 @@ impl Builder {
                     for e in t.iter_mut() {
                         e.2.push(tag);
                     }
+                }
+                Op::Fork => {
+                    self.forks.push((r.clone(), t.clone()));
                 }
                 Op::Merge(s) => {
                     let (sub, st) = self.build(&sub_programs()[*s]);
@@ -264,11 +273,11 @@ fn run_program(prog: &[Op], max_len: usize, out: &mut UnitResult, unit: &Value) 
     crate::pool::crumb(|| format!("routing program {:?}", prog.iter().map(op_json).collect::<Vec<_>>()));
     let calls: Calls = Arc::new(Mutex::new(BTreeMap::new()));
     let layer_runs = Arc::new(AtomicU64::new(0));
-    let mut b = Builder { next_svc: 0, next_tag: 100, calls: calls.clone(), layer_runs: layer_runs.clone() };
+    let mut b = Builder { next_svc: 0, next_tag: 100, calls: calls.clone(), layer_runs: layer_runs.clone(), forks: vec![] };
     let built = std::panic::catch_unwind(std::panic::AssertUnwindSafe(|| b.build(prog)));
     out.states += 1;
     out.transitions += prog.len() as u64;
-    let (mut router, table) = match built {
+    let (router, table) = match built {
         Ok(x) => x,
         Err(_) => {
             // documented build-time panic (conflicting routes): the table does not exist
@@ -281,7 +290,20 @@ fn run_program(prog: &[Op], max_len: usize, out: &mut UnitResult, unit: &Value) 
     let pj = || json!(prog.iter().map(op_json).collect::<Vec<_>>());
     let mut matched = 0u64;
     let wire_rt = super::c07::wire_runtime();
-    for (ri, route) in requests(max_len, &table).into_iter().enumerate() {
+    // the table the program built, then every clone kept aside on the way (probed with the
+    // short routes and the mutations of ALL patterns, also those added after it was taken)
+    let mut subjects: Vec<(Router, RefTable, Vec<String>)> = vec![];
+    let full_requests = requests(max_len, &table);
+    let fork_requests = requests(1, &table);
+    let forks = std::mem::take(&mut b.forks);
+    subjects.push((router, table.clone(), full_requests));
+    for (fr, ft) in forks {
+        subjects.push((fr, ft, fork_requests.clone()));
+    }
+    let n_subjects = subjects.len();
+    for (si, (mut router, table, reqs)) in subjects.into_iter().enumerate() {
+    let is_fork = si > 0;
+    for (ri, route) in reqs.into_iter().enumerate() {
         out.evaluations += 1;
         // what the router is handed is what the real request decoder makes of the remote's bytes:
         // short routes and a slice of the others travel through the real encoder and decoder
@@ -302,7 +324,7 @@ fn run_program(prog: &[Op], max_len: usize, out: &mut UnitResult, unit: &Value) 
         let r = std::panic::catch_unwind(std::panic::AssertUnwindSafe(|| router.call(Request::new(Bytes::new()).with_route(arriving.clone())).now_or_never()));
         let after_map = calls.lock().unwrap().clone();
         let after: u64 = after_map.values().sum();
-        let replay = json!({"unit": unit, "program": pj(), "route": route});
+        let replay = json!({"unit": unit, "program": pj(), "route": route, "on_clone_kept_aside": is_fork});
         let resp = match r {
             Err(p) => {
                 out.violation("router-panics", format!("Router::call panicked on route {route:?}: {}", crate::exec::panic_message(&p)), replay);
@@ -349,6 +371,8 @@ fn run_program(prog: &[Op], max_len: usize, out: &mut UnitResult, unit: &Value) 
             }
         }
     }
+    }
+    let _ = n_subjects;
     out.class(format!("routes={} layered={} matched>0={}", table.len().min(6), table.iter().filter(|e| !e.2.is_empty()).count().min(4), matched > 0));
     if out.samples.len() < 2 && prog.len() >= 3 {
         out.sample(json!({"program": pj(), "reference_table": table.iter().map(|e| json!([e.0, e.1, e.2])).collect::<Vec<_>>()}));
@@ -360,7 +384,7 @@ impl Check for C16 {
         CheckMeta {
             property: "C16",
             level: "model_checking",
-            rule: "every table-building program over {route(p in 7 patterns), route_layer(fresh tag), merge(one of 5 sub-tables incl. nested merges and layers), add_rpc_service(3 names)} up to depth 3 (quick) / 4 (thorough) = states, x every request string over {/ a b * : . space é NUL} (plus long routes: a two-byte character at every byte offset 0..130, lengths around 2^6..2^16, bare and behind every wildcard prefix) up to length 4 plus prefix/suffix mutations of every registered pattern = evaluations, on the real Router against a reference matcher (routes of length <= 1 and every 97th other one are first passed through the real request encoder and decoder, as a remote's route would be); plus loom (harness/lockx routes): two threads building tables of 1-4 routes (with and without merge) at the same time, a scheduling point before every access of the shared route-id counter (hook H9), preemption bound 3 | 4, every path must be answered by its own service; tables that the router rejects at build time (documented conflict panic) are counted and skipped; distinct = distinct (table size, layered routes, any match)".into(),
+            rule: "every table-building program over {route(p in 7 patterns), route_layer(fresh tag), merge(one of 5 sub-tables incl. nested merges and layers), add_rpc_service(3 names), keep a clone aside (it must go on routing as it did when taken, whatever is added to the original afterwards)} up to depth 3 (quick) / 4 (thorough) = states, x every request string over {/ a b * : . space é NUL} (plus long routes: a two-byte character at every byte offset 0..130, lengths around 2^6..2^16, bare and behind every wildcard prefix) up to length 4 plus prefix/suffix mutations of every registered pattern = evaluations, on the real Router against a reference matcher (routes of length <= 1 and every 97th other one are first passed through the real request encoder and decoder, as a remote's route would be); plus loom (harness/lockx routes): two threads building tables of 1-4 routes (with and without merge) at the same time, a scheduling point before every access of the shared route-id counter (hook H9), preemption bound 3 | 4, every path must be answered by its own service; tables that the router rejects at build time (documented conflict panic) are counted and skipped; distinct = distinct (table size, layered routes, any match)".into(),
             assumptions: vec!["overlapping patterns cannot coexist in one table (the router rejects them at build time), so the reference match is unique".into()],
             exhaustive: true,
         }
